@@ -4,15 +4,17 @@ import vf
 META = {
     "level": "other",
     "explanation": (
-        "src/bin/cli.rs is 340 lines of straight-line routing that no test reaches (cfg(not(test))). Decided on its syntax tree: "
-        "(route) each input route calls the matching library entry point; (features) every library call passes the user's "
-        "--features list, never a literal None; (header) the CSV route passes --csv-header; (ci) every failure branch (missing "
-        "file, Err from the library) goes through the error! macro with cli.ci, whose definition logs and returns Err under "
-        "--ci; compile-cddl propagates the parser's Err with `?`. Process-level behaviour (exit codes of the built binary) follows "
-        "from main's Result and is not executed."),
-    "assumptions": ["`fn main() -> Result<(), Box<dyn Error>>` maps Err to a non-zero exit status (Rust std)"],
-    "trusted_base": ["syn 2 parser"],
-    "technique": "static analysis: custom syntax-tree rules on call sites, argument provenance and error-path discipline",
+        "src/bin/cli.rs is straight-line routing that no test reaches (cfg(not(test))). (scenario) main is abstractly interpreted on scripted "
+        "invocations — which files exist, what the library answers per document, UTF-8 or binary stdin, --ci, --features, --csv-header, both "
+        "additional-controls twins — with the file system, the logger macros and the library entry points scripted; the calls made, the "
+        "reports logged and main's result are compared with the property's statement for every invocation of the bounded domain. "
+        "Helpers extracted from main are interpreted too. (ci) the error! macro's definition logs and returns Err under --ci. (listargs) "
+        "list-valued options split at the delimiter. Process-level behaviour (exit codes of the built binary) follows from main's Result "
+        "and is not executed."),
+    "assumptions": ["`fn main() -> Result<(), Box<dyn Error>>` maps Err to a non-zero exit status (Rust std)",
+                    "std::fs / std::io / Path behave as scripted (read returns the file's content; exists() tells whether it is there)"],
+    "trusted_base": ["syn 2 parser", "lib/absint.py"],
+    "technique": "static analysis: abstract interpretation of main over a bounded-exhaustive domain of scripted invocations; macro-definition rule; clap attribute rule",
 }
 
 CLI = "src/bin/cli.rs"
@@ -53,6 +55,317 @@ def r_listargs(ctx):
                           "as the single value \"a,b\"" % (fld["n"], fld["n"]))
 
 
+
+def _scenarios(tier):
+    """(ci, features, csv_header, docs, stdin) — docs: list of (route, name, state) with state ok | fail | missing"""
+    base = [("json", "j1"), ("json", "j2"), ("cbor", "c1"), ("cbor", "c2"), ("csv", "v1"), ("csv", "v2")]
+    sets = [[(r, n, "ok") for r, n in base]]
+    for i in range(len(base)):
+        for st in ("fail", "missing"):
+            sets.append([(r, n, st if k == i else "ok") for k, (r, n) in enumerate(base)])
+    # two faults in different positions (the first one decides under --ci)
+    for i in range(len(base)):
+        for j in range(i + 1, len(base)):
+            sets.append([(r, n, "fail" if k == i else ("missing" if k == j else "ok")) for k, (r, n) in enumerate(base)])
+    if tier == "thorough":
+        import itertools
+        sets = [[(r, n, st) for (r, n), st in zip(base, sts)] for sts in itertools.product(("ok", "fail", "missing"), repeat=len(base))]
+    sets.append([])                                           # no document files at all
+    sets.append([("json", "j1", "ok")])
+    sets.append([("cbor", "c1", "fail")])
+    sets.append([("csv", "v1", "ok")])
+    stdins = [None, ("utf8", "ok"), ("utf8", "fail"), ("binary", "ok"), ("binary", "fail")]
+    for docs in sets:
+        for ci in (False, True):
+            for feats in (None, ["feat-a", "feat-b"]):
+                for hdr in (False, True):
+                    for sd in (stdins if (len(docs) <= 1 or (tier == "thorough" and all(d[2] == "ok" for d in docs))) else [None]):
+                        yield ci, feats, hdr, docs, sd
+
+
+def r_scenario(ctx, main):
+    import absint
+    from absint import Interp, MutList, Return, Unknown, OPAQUE
+    rid = "C18.scenario"
+    ctx.rule(rid, "main is interpreted on scripted invocations of `cddl validate` (files per route present/missing, library verdict per document "
+                  "Ok/Err, stdin UTF-8/binary, --ci, --features, --csv-header; both additional-controls twins): the library calls made are "
+                  "exactly one per present document, in command-line order, with the route's own entry point, the schema file's text, that "
+                  "document's own content, the user's feature list and Some(true) for the header exactly under --csv-header; a document is "
+                  "reported successful iff its call returned Ok and as an error iff it returned Err or the file is missing; main returns Err "
+                  "iff --ci and some document failed or is missing (stopping there), or the schema does not compile", floor=8)
+    f = ctx.facts
+    UNIT = ("tuple", [])
+    n_eval = 0
+    seen = set()
+
+    def viol(key, msg):
+        if key not in seen:
+            seen.add(key)
+            ctx.violation(rid, key, CLI, main.line, msg)
+    for cfgname, addl in (("addl", True), ("noaddl", False)):
+        cfg = lambda c, addl=addl: absint.eval_cfg(c, lambda ft: ft not in ("lsp", "_build-parser") and (ft != "additional-controls" or addl))
+        resolver = vf.new_fn_resolver(f, [CLI], cfg=cfg)
+        for ci, feats, hdr, docs, sd in _scenarios(ctx.tier):
+            if feats is not None and not addl:
+                continue
+            for schema_ok in ((True, False) if not docs else (True,)):
+                label = "%s ci=%s features=%s header=%s docs=%s stdin=%s schema_ok=%s" % (cfgname, ci, feats, hdr, ",".join("%s:%s" % (n, st) for _, n, st in docs), sd, schema_ok)
+                state = {n: st for _, n, st in docs}
+                calls, log = [], []
+
+                def content_of(v):
+                    # the document a value stands for: ("content", name) possibly wrapped in a one-element buffer
+                    if isinstance(v, tuple) and v[:1] == ("content",):
+                        return v[1]
+                    if isinstance(v, (list, MutList)) and len(v) == 1:
+                        return content_of(v[0])
+                    if isinstance(v, (list, MutList)) and len(v) > 1 and all(content_of(x) for x in v):
+                        return "+".join(content_of(x) for x in v)      # a buffer holding several documents' bytes
+                    return None
+
+                def fname(v):
+                    if isinstance(v, tuple) and v[:1] in (("path",), ("file",)):
+                        return fname(v[1])
+                    if isinstance(v, tuple) and v[:1] == ("str",):
+                        return v[1]
+                    return None
+
+                def lib(route_fn, args):
+                    want_n = {"validate_json_from_str": 2, "validate_cbor_from_slice": 2, "validate_csv_from_str": 3}[route_fn] + (1 if addl else 0)
+                    if len(args) != want_n:
+                        raise Unknown("%s called with %d arguments" % (route_fn, len(args)))
+                    doc = content_of(args[1])
+                    rec = {"fn": route_fn, "schema": content_of(args[0]), "doc": doc,
+                           "header": args[2] if route_fn == "validate_csv_from_str" else None, "features": args[-1] if addl else None}
+                    calls.append(rec)
+                    st = state.get(doc) if doc != "<stdin>" else (sd[1] if sd else None)
+                    if st == "ok":
+                        return ("Ok", UNIT)
+                    if st == "fail":
+                        return ("Err", ("liberr", doc))
+                    if doc is None:
+                        raise Unknown("library called on %r, which this scenario does not provide" % (args[1],))
+                    return ("Err", ("liberr", doc))      # not one of the scenario's documents: reported by the call comparison
+
+                def on_call(kind, nm, node, args, recv):
+                    base = (nm or "").split("::")[-1]
+                    if kind == "macro":
+                        if nm in ("info", "warn", "debug", "trace"):
+                            log.append((nm, args))
+                            return UNIT
+                        if nm == "error":
+                            log.append(("error", args[1:]))
+                            if args and args[0] is True:
+                                raise Return(("Err", ("ci-error", args[1:])))
+                            if not args or args[0] is not False:
+                                raise Unknown("error! with first argument %r" % (args[:1],))
+                            return UNIT
+                        if nm in ("format", "write", "writeln"):
+                            return OPAQUE
+                        return NotImplemented
+                    if kind == "fn":
+                        if nm in ("TermLogger::init",):
+                            return ("Ok", UNIT)
+                        if nm in ("Cli::parse", "Cli::parse_from"):
+                            return cli
+                        if nm in ("Path::new", "PathBuf::from") and args:
+                            return ("path", args[0])
+                        if nm in ("fs::read_to_string", "std::fs::read_to_string", "fs::read", "std::fs::read") and args:
+                            x = fname(args[0])
+                            if x is None:
+                                raise Unknown("read of %r" % (args[0],))
+                            return ("Ok", ("content", x))
+                        if nm in ("File::open", "fs::File::open", "std::fs::File::open") and args:
+                            x = fname(args[0])
+                            if x is None:
+                                raise Unknown("open of %r" % (args[0],))
+                            return ("Ok", ("file", ("str", x)))
+                        if nm in ("io::stdin", "std::io::stdin"):
+                            return ("file", ("str", "<stdin>"))
+                        if nm in ("std::str::from_utf8", "str::from_utf8", "core::str::from_utf8") and args:
+                            x = content_of(args[0])
+                            if x != "<stdin>" or sd is None:
+                                raise Unknown("from_utf8 of %r" % (args[0],))
+                            return ("Ok", ("content", x)) if sd[0] == "utf8" else ("Err", OPAQUE)
+                        if nm in ("String::from_utf8",) and args:
+                            x = content_of(args[0])
+                            if x != "<stdin>" or sd is None:
+                                raise Unknown("from_utf8 of %r" % (args[0],))
+                            return ("Ok", ("content", x)) if sd[0] == "utf8" else ("Err", OPAQUE)
+                        if base == "root_type_name_from_cddl_str" and args:
+                            return ("Ok", ("str", "root")) if schema_ok else ("Err", ("schema-error",))
+                        if base == "cddl_from_str" and args:
+                            return ("Ok", OPAQUE) if schema_ok else ("Err", ("schema-error",))
+                        if base in ROUTES.values():
+                            return lib(base, args)
+                        return NotImplemented
+                    if kind == "method":
+                        if isinstance(recv, tuple) and recv[:1] == ("path",):
+                            if nm == "exists" or nm == "is_file":
+                                x = fname(recv)
+                                if x == "schema.cddl":
+                                    return True
+                                if x not in state:
+                                    raise Unknown("exists() of %r" % (recv,))
+                                return state[x] != "missing"
+                            if nm in ("display", "to_path_buf", "as_ref", "to_owned", "clone"):
+                                return recv
+                            raise Unknown("Path::%s" % nm)
+                        if isinstance(recv, tuple) and recv[:1] == ("file",):
+                            if nm in ("lock", "by_ref"):
+                                return recv
+                            if nm in ("read_to_end", "read_to_string"):
+                                buf = absint.CURRENT.eval(node["a"][0])
+                                if not isinstance(buf, MutList):
+                                    raise Unknown("%s into %r" % (nm, buf))
+                                buf.append(("content", fname(recv)))
+                                return ("Ok", 1)
+                            raise Unknown("File::%s" % nm)
+                        if isinstance(recv, tuple) and recv[:1] == ("liberr",):
+                            if nm in ("to_string", "trim_end", "trim", "as_str"):
+                                return recv
+                        if isinstance(recv, tuple) and recv[:1] == ("content",) and nm in ("as_str", "as_bytes", "as_slice", "to_string", "clone", "to_owned", "as_ref", "into_bytes", "to_vec"):
+                            return recv
+                        return NotImplemented
+                    return NotImplemented
+                fo = ("None",) if feats is None else ("Some", MutList([("str", x) for x in feats]))
+                groups = {r: [n for rr, n, _ in docs if rr == r] for r in ROUTES}
+                validate = ("enum", "Validate", {
+                    "cddl": ("str", "schema.cddl"), "features": fo, "csv_header": hdr, "stdin": sd is not None,
+                    **{r: (("Some", MutList([("str", n) for n in groups[r]])) if groups[r] else ("None",)) for r in ROUTES}})
+                cli = ("enum", "Cli", {"ci": ci, "command": ("enum", "Commands::Validate", [validate])})
+                it = Interp(env={}, cfg=cfg, on_call=on_call, max_steps=200000)
+                it.resolve_fn = resolver
+                it.strict_try = True
+                self_it = [it]
+                try:
+                    try:
+                        res = it.block(main.node["body"])
+                    except Return as r:
+                        res = r.v
+                except Unknown as e:
+                    ctx.incomplete_msg(rid, "%s: %s" % (label, e))
+                    continue
+                n_eval += 1
+                # ---- oracle
+                exp_calls, exp_log, exp_err = [], [], False
+                order = [(r, n) for r in ("json", "cbor", "csv") for n in groups[r]]
+                if not schema_ok:
+                    exp_err = True
+                else:
+                    for r, n in order:
+                        if state[n] == "missing":
+                            exp_log.append(("error", n))
+                        else:
+                            exp_calls.append((ROUTES[r], n))
+                            exp_log.append(("info" if state[n] == "ok" else "error", n))
+                        if state[n] != "ok" and ci:
+                            exp_err = True
+                            break
+                    if not exp_err and sd is not None:
+                        exp_calls.append((ROUTES["json"] if sd[0] == "utf8" else ROUTES["cbor"], "<stdin>"))
+                        exp_log.append(("info" if sd[1] == "ok" else "error", "<stdin>"))
+                        if sd[1] != "ok" and ci:
+                            exp_err = True
+                # ---- compare calls
+                got_calls = [(c["fn"], c["doc"]) for c in calls]
+                routes_seen = {c["fn"] for c in calls}
+                if got_calls != exp_calls:
+                    kind = "route" if [d for _, d in got_calls] == [d for _, d in exp_calls] else ("order" if sorted(map(str, got_calls)) == sorted(map(str, exp_calls)) else "calls")
+                    viol("%s|%s" % (kind, cfgname), "%s: the library calls are %s; expected %s" % (label, got_calls, exp_calls))
+                for c in calls:
+                    if c["schema"] != "schema.cddl":
+                        viol("schema|%s|%s" % (c["fn"], cfgname), "%s: %s is given %r as the schema, not the text of the --cddl file" % (label, c["fn"], c["schema"]))
+                    if addl:
+                        ft = c["features"]
+                        got_f = None if ft == ("None",) else ([x[1] if isinstance(x, tuple) and x[:1] == ("str",) else x for x in ft[1]] if isinstance(ft, tuple) and ft[0] == "Some" and isinstance(ft[1], (list, MutList)) else "?%r" % (ft,))
+                        if got_f != feats:
+                            viol("features|%s|%s" % (c["fn"], "none" if feats is None else "some"), "%s: %s for %s is called with features %r; the user's --features list is %r" % (label, c["fn"], c["doc"], got_f, feats))
+                    if c["fn"] == ROUTES["csv"]:
+                        h = c["header"]
+                        okh = (h == ("Some", True)) if hdr else (h in (("None",), ("Some", False)))
+                        if not okh:
+                            viol("header|%s|%s" % (hdr, cfgname), "%s: validate_csv_from_str gets has_header=%r with --csv-header %s" % (label, h, "given" if hdr else "absent"))
+                # ---- compare reports: each expected (kind, doc) in order; a log record is attributed to the document it mentions
+                def doc_of(rec):
+                    for a in rec[1]:
+                        x = fname(a) if not (isinstance(a, tuple) and a[:1] == ("liberr",)) else None
+                        if x in state:
+                            return x
+                    txt = " ".join(a[1] for a in rec[1] if isinstance(a, tuple) and a[:1] == ("str",) and isinstance(a[1], str))
+                    if "stdin" in txt:
+                        return "<stdin>"
+                    return None
+                got_log = [(k, doc_of((k, a))) for k, a in log]
+                got_log = [(k, d) for k, d in got_log if d is not None]
+                if schema_ok and got_log != exp_log:
+                    viol("report|%s" % cfgname, "%s: reports are %s; expected %s (info = success, error = failure)" % (label, got_log, exp_log))
+                is_err = isinstance(res, tuple) and res[:1] == ("Err",)
+                is_ok = isinstance(res, tuple) and res[:1] == ("Ok",)
+                if not (is_err or is_ok):
+                    ctx.incomplete_msg(rid, "%s: main's result %r" % (label, res))
+                elif is_err != exp_err:
+                    viol("exit|ci=%s|%s" % (ci, cfgname), "%s: main returns %s; expected %s" % (label, "Err" if is_err else "Ok", "Err" if exp_err else "Ok"))
+        ctx.site(rid, "validate|" + cfgname, CLI, main.line, {"scenarios": n_eval})
+    # compile-cddl: present file, parser verdict decides; missing file under --ci fails
+    for ci in (False, True):
+        for st in ("ok", "fail", "missing"):
+            log = []
+
+            def on_call(kind, nm, node, args, recv, st=st, ci=ci):
+                base = (nm or "").split("::")[-1]
+                if kind == "macro":
+                    if nm == "info":
+                        log.append(("info", args))
+                        return UNIT
+                    if nm == "error":
+                        log.append(("error", args[1:]))
+                        if args and args[0] is True:
+                            raise Return(("Err", ("ci-error",)))
+                        return UNIT
+                    return NotImplemented
+                if kind == "fn":
+                    if nm == "TermLogger::init":
+                        return ("Ok", UNIT)
+                    if nm == "Cli::parse":
+                        return ("enum", "Cli", {"ci": ci, "command": ("enum", "Commands::CompileCddl", {"file": ("str", "s.cddl")})})
+                    if nm == "Path::new":
+                        return ("path", args[0])
+                    if nm in ("fs::read_to_string", "std::fs::read_to_string"):
+                        return ("Ok", ("content", "s.cddl"))
+                    if base == "cddl_from_str":
+                        return ("Ok", OPAQUE) if st == "ok" else ("Err", ("parse-error",))
+                    return NotImplemented
+                if kind == "method" and isinstance(recv, tuple) and recv[:1] == ("path",) and nm == "exists":
+                    return st != "missing"
+                return NotImplemented
+            it = Interp(env={}, cfg=absint.default_cfg, on_call=on_call)
+            it.resolve_fn = vf.new_fn_resolver(f, [CLI], cfg=absint.default_cfg)
+            it.strict_try = True
+            try:
+                try:
+                    res = it.block(main.node["body"])
+                except Return as r:
+                    res = r.v
+            except Unknown as e:
+                ctx.incomplete_msg(rid, "compile-cddl %s ci=%s: %s" % (st, ci, e))
+                continue
+            is_err = isinstance(res, tuple) and res[:1] == ("Err",)
+            want_err = st == "fail" or (st == "missing" and ci)
+            ctx.site(rid, "compile-cddl|%s|ci=%s" % (st, ci), CLI, main.line, {"returns": "Err" if is_err else repr(res)[:20], "reports": [k for k, _ in log]})
+            if is_err != want_err:
+                ctx.violation(rid, "compile-cddl|%s|ci=%s" % (st, ci), CLI, main.line, "compile-cddl on a file the parser %s (ci=%s) returns %s" %
+                              ({"ok": "accepts", "fail": "rejects", "missing": "cannot read: it is missing"}[st], ci, "Err" if is_err else "Ok"))
+            if st == "ok" and [k for k, _ in log] != ["info"]:
+                ctx.violation(rid, "compile-cddl|report-ok", CLI, main.line, "compile-cddl on an accepted file reports %s" % [k for k, _ in log])
+            if st == "fail" and "info" in [k for k, _ in log]:
+                ctx.violation(rid, "compile-cddl|report-fail", CLI, main.line, "compile-cddl reports conformance for a file the parser rejects")
+    if n_eval < 400:
+        ctx.incomplete_msg(rid, "only %d invocations evaluated" % n_eval)
+    ctx.extra["evaluations"] = ctx.extra.get("evaluations", 0) + n_eval
+    ctx.extra["distinct_nontrivial"] = ctx.extra.get("distinct_nontrivial", 0) + n_eval
+
+
 def run(ctx):
     ctx.guarded("C18.listargs", r_listargs)
     f = ctx.facts
@@ -61,88 +374,8 @@ def run(ctx):
         ctx.incomplete_msg("C18", "main not found in %s" % CLI)
         return
     main = mains[0]
-    ctx.rule("C18.route", "inside `if let Some(files) = &validate.<x>` the library call is validate_<x>_*; the stdin route calls the JSON "
-                          "validator when the bytes are UTF-8 and the CBOR validator otherwise", floor=5)
-    ctx.rule("C18.features", "every call of validate_json_from_str / validate_cbor_from_slice / validate_csv_from_str that takes a features "
-                             "argument passes a value derived from validate.features (enabled_features), never a literal None", floor=5)
-    ctx.rule("C18.fresh", "inside a per-file loop the document argument of the library call is built only from variables declared in that loop "
-                          "iteration (the loop variable or locals of the loop body): each file is validated on its own content", floor=3)
-    ctx.rule("C18.header", "validate_csv_from_str's header argument derives from validate.csv_header", floor=1)
-    ctx.rule("C18.ci", "every `!p.exists()` branch and every Err arm of a library result expands error!(cli.ci, ..); the error! macro logs "
-                       "and, when its first argument is true, returns Err; compile-cddl applies `?` to cddl_from_str", floor=8)
-    counts = {}
-    for n, anc in walk_ctx(main.node):
-        if n["k"] == "call" and n["f"]["k"] == "path" and n["f"]["p"] in ROUTES.values():
-            fn = n["f"]["p"]
-            # enclosing route
-            route = None
-            for a in reversed(anc):
-                if a["k"] == "if":
-                    c = vf.src(a["c"])
-                    for r in ROUTES:
-                        if "validate.%s" % r in c and "csv_header" not in c:
-                            route = route or r
-                    if "from_utf8" in c:
-                        # then-branch = utf8 ok = json ; else = cbor
-                        in_then = any(x is n for x in vf.walk(a["t"]))
-                        route = route or ("stdin-utf8" if in_then else "stdin-binary")
-                    if "validate.stdin" in c and route is None:
-                        route = "stdin"
-            cfgs = []
-            for a in anc:
-                cfgs += a.get("cfg") or []
-            cfgk = "addl" if any('feature="additional-controls"' == c for c in cfgs) else ("noaddl" if any("not(feature=\"additional-controls\")" == c for c in cfgs) else "any")
-            base = "%s|%s|%s" % (route, fn, cfgk)
-            i = counts.get(base, 0)
-            counts[base] = i + 1
-            key = base if i == 0 else "%s#%d" % (base, i)
-            ctx.site("C18.route", key, CLI, n["l"], {"call": vf.src(n)[:120]})
-            want = {"json": ROUTES["json"], "cbor": ROUTES["cbor"], "csv": ROUTES["csv"], "stdin-utf8": ROUTES["json"], "stdin-binary": ROUTES["cbor"]}.get(route)
-            if want is None or want != fn:
-                ctx.violation("C18.route", key, CLI, n["l"], "route %s calls %s (expected %s)" % (route, fn, want))
-            # the document argument must be read freshly for each file: a variable declared inside the innermost enclosing loop
-            loops = [a for a in anc if a["k"] == "for"]
-            if loops and len(n["a"]) >= 2:
-                doc = n["a"][1]
-                names = [x["p"] for x in vf.walk(doc) if x["k"] == "path" and "::" not in x["p"]]
-                body_locals = set()
-                for loc in vf.find(loops[-1]["b"], "local"):
-                    body_locals |= set(vf.pat_bindings(loc["pat"]))
-                loopvars = set(vf.pat_bindings(loops[-1]["pat"]))
-                ctx.site("C18.fresh", key, CLI, n["l"], {"document_arg": vf.src(doc), "declared_in_loop": sorted(set(names) & (body_locals | loopvars))})
-                for nm in names:
-                    if nm not in body_locals and nm not in loopvars and nm not in ("fs", "file"):
-                        ctx.violation("C18.fresh", key, CLI, n["l"], "%s route: the document passed to %s (`%s`) uses `%s`, which outlives one loop iteration: "
-                                      "what is validated for a file can depend on the files before it" % (route, fn, vf.src(doc), nm))
-            if cfgk == "addl":
-                last = n["a"][-1] if n["a"] else None
-                ctx.site("C18.features", key, CLI, n["l"], {"features_arg": vf.src(last)})
-                if last is None or "enabled_features" not in vf.src(last):
-                    ctx.violation("C18.features", key, CLI, n["l"], "%s route: %s is called with features argument `%s`: the user's --features list is "
-                                  "ignored, so the CLI can report a different verdict than the library call with the same features" % (route, fn, vf.src(last)))
-            if fn == ROUTES["csv"]:
-                hdr = n["a"][2] if len(n["a"]) > 2 else None
-                ctx.site("C18.header", key, CLI, n["l"], {"header_arg": vf.src(hdr)})
-                ok = False
-                if hdr is not None and hdr["k"] == "path":
-                    for loc in vf.find(main.node, "local"):
-                        if loc["pat"].get("k") == "pid" and loc["pat"]["n"] == hdr["p"] and loc.get("init") is not None:
-                            init = loc["init"]
-                            if init["k"] == "if" and "validate.csv_header" in vf.src(init["c"]) and "Some(true)" in vf.src(init["t"]["stmts"][-1]["e"] if init["t"]["stmts"] else None):
-                                ok = True
-                if not ok:
-                    ctx.violation("C18.header", key, CLI, n["l"], "the CSV header argument `%s` is not `Some(true)` exactly when validate.csv_header" % vf.src(hdr))
-    # enabled_features derives from validate.features
-    ok = False
-    for loc in vf.find(main.node, "local"):
-        if loc["pat"].get("k") in ("pid", "ptype") and "enabled_features" in vf.src(loc["pat"]) and loc.get("init") is not None:
-            import json
-            if "features" in json.dumps(loc["init"]) and "validate" in json.dumps(loc["init"]):
-                ok = True
-    ctx.site("C18.features", "enabled_features<-validate.features", CLI, main.line, {"ok": ok})
-    if not ok:
-        ctx.violation("C18.features", "enabled_features|provenance", CLI, main.line, "enabled_features is not derived from validate.features")
-    # ci discipline
+    ctx.guarded("C18.scenario", lambda c: r_scenario(c, main))
+    ctx.rule("C18.ci", "the error! macro logs and, when its first argument is true, returns Err", floor=1)
     mac = [it for it in f.files[CLI]["items"] if it.get("k") == "imacro" and it.get("ident") == "error"]
     if not mac:
         ctx.incomplete_msg("C18.ci", "macro_rules! error not found")
@@ -152,32 +385,3 @@ def run(ctx):
         ctx.site("C18.ci", "macro error!", CLI, mac[0]["l"], {"logs": "log::error!" in t, "returns_err_under_ci": "returnErr(" in t.replace(" ", "")})
         if not good:
             ctx.violation("C18.ci", "macro error!", CLI, mac[0]["l"], "error! no longer logs and returns Err when its first argument ($ci) is true")
-    cnt = {}
-    for n, anc in walk_ctx(main.node):
-        if n["k"] == "if" and ".exists()" in vf.src(n["c"]) and vf.src(n["c"]).startswith("!"):
-            k = "missing-file#%d" % cnt.setdefault("m", 0)
-            cnt["m"] += 1
-            has = any(x["k"] == "macro" and x["name"] == "error" and (x.get("args") or [{}])[0].get("s") == "cli.ci" for x in vf.walk(n["t"]))
-            ctx.site("C18.ci", k, CLI, n["l"], {"error_macro_with_cli_ci": has})
-            if not has:
-                ctx.violation("C18.ci", k, CLI, n["l"], "a missing input file is not reported through error!(cli.ci, ..): --ci exits 0 although a document is missing")
-        if n["k"] == "match" and n["e"]["k"] == "path" and n["e"]["p"] in ("r", "c"):
-            k = "result-match#%d" % cnt.setdefault("r", 0)
-            cnt["r"] += 1
-            err_arm = [a for a in n["arms"] if (vf.pat_path(a["pat"]) or "") == "Err"]
-            ok_arm = [a for a in n["arms"] if (vf.pat_path(a["pat"]) or "") == "Ok"]
-            has = bool(err_arm) and any(x["k"] == "macro" and x["name"] == "error" and (x.get("args") or [{}])[0].get("s") == "cli.ci" for x in vf.walk(err_arm[0]["body"]))
-            ok_clean = bool(ok_arm) and not any(x["k"] == "macro" and x["name"] == "error" for x in vf.walk(ok_arm[0]["body"]))
-            ctx.site("C18.ci", k, CLI, n["l"], {"err_arm_reports": has, "ok_arm_clean": ok_clean})
-            if not has:
-                ctx.violation("C18.ci", k, CLI, n["l"], "an Err from the library is not reported through error!(cli.ci, ..)")
-            if not ok_clean:
-                ctx.violation("C18.ci", k + "|ok", CLI, n["l"], "the Ok arm of a library result reports an error")
-    # compile-cddl
-    ok = False
-    for n in vf.walk(main.node):
-        if n["k"] == "try" and "cddl_from_str" in vf.src(n["e"]):
-            ok = True
-    ctx.site("C18.ci", "compile-cddl", CLI, main.line, {"propagates_parser_error": ok})
-    if not ok:
-        ctx.violation("C18.ci", "compile-cddl", CLI, main.line, "compile-cddl does not propagate cddl_from_str's Err with `?`")
